@@ -57,6 +57,12 @@ def _base_configs():
     # elastic strain energy (constant per precipitate volume): taken off the driving force once, in the binary and in the multicomponent path
     c.append(dict(tag="binary-strain-energy", phases=[dict(ph, strainE=3e7)], D=1e-16, calls=[(100.0, 0.02)], iter="euler"))
     c.append(dict(tag="multi-strain-energy", multi=True, phases=[dict(ph, strainE=3e7)], calls=[(0.6, 0.02), (0.6, 0.02)], iter="euler"))
+    # instantaneous quench: a break point time given twice, schedule supplied through the model's setter
+    c.append(dict(tag="quench-step-down-setter", phases=[ph], D=1e-16, se=1e-5, temp=("array", [0, H(4.0), H(4.0), H(10.0)], [1010, 1010, 1000, 1000]),
+                  calls=[(10.0, 0.02)], iter="euler", constraints=dict(maxNonIsothermalDT=20)))
+    # a temperature step into the window 0 < chemical driving force <= strain energy (the volumetric driving force is negative there) right after nucleation
+    c.append(dict(tag="strain-window-after-jump", phases=[dict(ph, strainE=1.0e8)], D=1e-16, se=1e-4, retemp=[1000, 1060], calls=[(10.0, 0.02), (5.0, 0.02)], iter="euler"))
+    c.append(dict(tag="strain-window-after-jump-2", phases=[dict(ph, strainE=0.9e8)], D=1e-16, se=1e-4, retemp=[1000, 1055], calls=[(10.0, 0.02), (5.0, 0.02)], iter="rk4"))
     c.append(dict(tag="multi-strain-energy-vm-ratio-rk4", multi=True, phases=[dict(ph, strainE=2e7, VmB=1.2e-5)], calls=[(1.0, 0.02)], iter="rk4"))
     # non-spherical precipitates with a constant aspect ratio (thermodynamic and kinetic shape factors enter Rcrit, the Gibbs-Thomson
     # energy of every size class and the growth rate)
